@@ -71,6 +71,25 @@ class RLScheduler(BaseScheduler):
         # the action chosen by the agent for the next batch, already taken out of the queue
         self._next_action: int | None = None
 
+    def __getstate__(self) -> dict:
+        """Get the state to be pickled.
+
+        The agent thread and the queues are transient (and cannot be pickled): a scheduler saved in the
+        middle of a session is restored as a scheduler with no session in progress.
+        """
+        state = self.__dict__.copy()
+        del state["_in_queue"], state["_out_queue"]
+        state["_agent_thread"] = None
+        state["_stopped"] = True
+        state["_next_action"] = None
+        return state
+
+    def __setstate__(self, state: dict) -> None:
+        """Restore the pickled state, re-linking the queues of the (restored) environment."""
+        self.__dict__.update(state)
+        self._in_queue = self._env._out_queue  # noqa: SLF001
+        self._out_queue = self._env._in_queue  # noqa: SLF001
+
     def _set_random_state(self, random_state: int | None) -> None:
         """Set the random state (private use)."""
         super()._set_random_state(random_state)
